@@ -1,6 +1,6 @@
 //! C19 — command calls: ordered results, exactly one terminal event, stamps, isolation, no replay.
 
-use std::collections::BTreeMap;
+use std::collections::{BTreeMap, BTreeSet};
 use std::time::Duration;
 
 use scru128::Scru128Id;
@@ -99,9 +99,25 @@ pub fn run_case(seed: u64) -> CaseResult {
     res
 }
 
+/// The commands loop handles frames in stream order and awaits each `.define` inline: once a call to the
+/// always-defined `sync` command (appended after a definition) has completed, that definition is in force.
+/// Returns false if the watchdog expired.
+pub fn sync_commands(srv: &mut Srv) -> R<bool> {
+    let c = srv.must_append("sync.call", ZERO_CONTEXT, None, None, None)?;
+    let cid = c.id.to_string();
+    srv.wait(Duration::from_secs(30), |log| log.iter().any(|f| f.topic == "sync.complete" && meta_str(f, "frame_id") == Some(&cid)))
+}
+
+pub const SYNC_DEF: &str = "{run: {|frame| [] | each {|x| $x}}}";
+
 fn case(srv: &mut Srv, seed: u64, res: &mut CaseResult) -> R<()> {
     let mut rng = Rng::new(seed);
     let ctx_a = srv.new_context()?;
+    srv.must_append("sync.define", ZERO_CONTEXT, Some(SYNC_DEF.as_bytes()), None, None)?;
+    if !sync_commands(srv)? {
+        res.inconclusive = Some("commands loop did not answer the first sync call within 30 s".into());
+        return Ok(());
+    }
     let ctxs = [ZERO_CONTEXT, ctx_a];
     let names = ["c1", "c2"];
     let mut current: BTreeMap<String, (Scru128Id, CmdDef)> = BTreeMap::new();
@@ -109,7 +125,38 @@ fn case(srv: &mut Srv, seed: u64, res: &mut CaseResult) -> R<()> {
     let mut bad_defs: Vec<Frame> = vec![];
     let mut events = vec![];
     let n_events = 8 + rng.below(8);
+    let restart_at = if rng.chance(350) { Some(3 + rng.below(n_events - 3)) } else { None };
+    let mut restarts = 0u64;
+    let mut bad_def_era: Vec<u64> = vec![];
     for ev in 0..n_events {
+        if restart_at == Some(ev) {
+            // restart of the whole server: definitions persist (the latest valid one per name), calls already
+            // answered are never executed again
+            if !wait_terminals(srv, &calls)? {
+                res.inconclusive = Some("calls before the restart did not finish within the watchdog".into());
+                return Ok(());
+            }
+            srv.settle(Duration::from_millis(200), Duration::from_secs(5))?;
+            let watermark = srv.log.iter().map(|f| f.id).max().unwrap_or(ZERO_CONTEXT);
+            let kill = rng.chance(600);
+            srv.restart(kill)?;
+            restarts += 1;
+            res.count(if kill { "restarts.sigkill" } else { "restarts.clean" }, 1);
+            events.push(format!("restart:{}", if kill { "kill" } else { "clean" }));
+            if !sync_commands(srv)? {
+                res.inconclusive = Some("commands loop did not answer a sync call within 30 s after the restart".into());
+                return Ok(());
+            }
+            srv.settle(Duration::from_millis(300), Duration::from_secs(5))?;
+            let old_calls: BTreeSet<String> = calls.iter().map(|c| c.frame.id.to_string()).collect();
+            for f in srv.era_log().iter().filter(|f| f.id > watermark && !is_synth(f)) {
+                if let Some(fid) = meta_str(f, "frame_id") {
+                    if old_calls.contains(fid) {
+                        res.find(&["C19", "C17"], "call-re-executed-after-restart", json!({"new_frame": f, "events": events}));
+                    }
+                }
+            }
+        }
         let name = names[rng.below(2)];
         let ctx = ctxs[rng.below(2)];
         let kind = if !current.contains_key(name) { *rng.pick(&["define", "define", "call", "define-bad"]) } else { *rng.pick(&["call", "call", "call-burst", "define", "define-bad", "call", "redefine-identical"]) };
@@ -118,8 +165,11 @@ fn case(srv: &mut Srv, seed: u64, res: &mut CaseResult) -> R<()> {
             "define" => {
                 let d = gen_def(&mut rng, &format!("d{}", ev));
                 let f = srv.must_append(&format!("{}.define", name), ctx, Some(def_script(&d).as_bytes()), None, None)?;
-                // a definition takes effect when the serve loop has processed it: settle before calling
-                srv.settle(Duration::from_millis(60), Duration::from_secs(5))?;
+                // a definition takes effect when the serve loop has processed it
+                if !sync_commands(srv)? {
+                    res.inconclusive = Some("commands loop did not reach a sync call within 30 s".into());
+                    return Ok(());
+                }
                 if let Some(e) = srv.era_log().iter().find(|x| x.topic == format!("{}.error", name) && meta_str(x, "command_id") == Some(&f.id.to_string())) {
                     res.inconclusive = Some(format!("generated definition rejected: {:?}\n{}", e.meta, def_script(&d)));
                     return Ok(());
@@ -131,14 +181,21 @@ fn case(srv: &mut Srv, seed: u64, res: &mut CaseResult) -> R<()> {
                 // the same script bytes again: a new definition frame, whose id later results must carry
                 let (_, d) = current.get(name).cloned().unwrap();
                 let f = srv.must_append(&format!("{}.define", name), ctx, Some(def_script(&d).as_bytes()), None, None)?;
-                srv.settle(Duration::from_millis(60), Duration::from_secs(5))?;
+                if !sync_commands(srv)? {
+                    res.inconclusive = Some("commands loop did not reach a sync call within 30 s".into());
+                    return Ok(());
+                }
                 current.insert(name.to_string(), (f.id, d));
                 res.count("identical_redefinitions", 1);
             }
             "define-bad" => {
                 let f = srv.must_append(&format!("{}.define", name), ctx, Some(rng.pick(BAD_DEFS).as_bytes()), None, None)?;
-                srv.settle(Duration::from_millis(60), Duration::from_secs(5))?;
+                if !sync_commands(srv)? {
+                    res.inconclusive = Some("commands loop did not reach a sync call within 30 s".into());
+                    return Ok(());
+                }
                 bad_defs.push(f);
+                bad_def_era.push(restarts);
             }
             "call-burst" => {
                 // overlapping calls: several at once, each with its own argument
@@ -163,12 +220,10 @@ fn case(srv: &mut Srv, seed: u64, res: &mut CaseResult) -> R<()> {
         }
     }
     // quiescence: every defined call has its terminal event (bounded), then a quiet period
-    let want: Vec<(String, String)> = calls.iter().filter(|c| c.def.is_some()).map(|c| (c.name.clone(), c.frame.id.to_string())).collect();
-    let done = srv.wait(Duration::from_secs(40), |log| {
-        want.iter().all(|(n, id)| log.iter().any(|f| (f.topic == format!("{}.complete", n) || f.topic == format!("{}.error", n)) && meta_str(f, "frame_id") == Some(id)))
-    })?;
+    let done = wait_terminals(srv, &calls)?;
     srv.settle(Duration::from_millis(250), Duration::from_secs(5))?;
-    check_calls(srv, res, &calls, &bad_defs, done, "");
+    let later_starts: Vec<u64> = bad_def_era.iter().map(|e| restarts - e).collect();
+    check_calls(srv, res, &calls, &bad_defs, &later_starts, done, "");
     res.hash = fnv(&events.join(","));
     if res.sample.is_none() {
         res.sample = Some(json!({"events": events, "calls": calls.len(), "a_definition": current.values().next().map(|d| def_script(&d.1))}));
@@ -176,8 +231,37 @@ fn case(srv: &mut Srv, seed: u64, res: &mut CaseResult) -> R<()> {
     Ok(())
 }
 
-pub fn check_calls(srv: &mut Srv, res: &mut CaseResult, calls: &[Call], bad_defs: &[Frame], done: bool, sig_prefix: &str) {
-    let log: Vec<Frame> = srv.log.iter().filter(|f| !is_synth(f)).cloned().collect();
+/// Bounded wait for a terminal event per call made while its command was defined. If some are missing after
+/// 40 s, the loop's liveness is probed: a later `sync` call that completes, followed by 2 s without any new
+/// frame, means the missing ones are not merely slow (the scripts sleep for milliseconds) — the verdict may
+/// then be drawn; otherwise the case stays inconclusive.
+fn wait_terminals(srv: &mut Srv, calls: &[Call]) -> R<bool> {
+    let want: Vec<(String, String)> = calls.iter().filter(|c| c.def.is_some()).map(|c| (c.name.clone(), c.frame.id.to_string())).collect();
+    let all = |log: &[Frame]| want.iter().all(|(n, id)| log.iter().any(|f| (f.topic == format!("{}.complete", n) || f.topic == format!("{}.error", n)) && meta_str(f, "frame_id") == Some(id)));
+    let t0 = std::time::Instant::now();
+    loop {
+        srv.pull()?;
+        if all(&srv.log) {
+            return Ok(true);
+        }
+        if t0.elapsed() > Duration::from_secs(40) {
+            break;
+        }
+        std::thread::sleep(Duration::from_millis(5));
+    }
+    if !sync_commands(srv)? {
+        return Ok(false);
+    }
+    srv.settle(Duration::from_secs(2), Duration::from_secs(20))?;
+    let n0 = srv.log.len();
+    std::thread::sleep(Duration::from_secs(2));
+    srv.pull()?;
+    Ok(srv.log.len() == n0)
+}
+
+pub fn check_calls(srv: &mut Srv, res: &mut CaseResult, calls: &[Call], bad_defs: &[Frame], later_starts: &[u64], done: bool, sig_prefix: &str) {
+    // after a restart the monitor's follower re-reads the history: one entry per frame id
+    let log: Vec<Frame> = srv.log.iter().filter(|f| !is_synth(f)).map(|f| (f.id, f.clone())).collect::<BTreeMap<_, _>>().into_values().collect();
     let mut checked = 0u64;
     for c in calls {
         let cid = c.frame.id.to_string();
@@ -274,10 +358,12 @@ pub fn check_calls(srv: &mut Srv, res: &mut CaseResult, calls: &[Call], bad_defs
             }
         }
     }
-    for b in bad_defs {
+    for (bi, b) in bad_defs.iter().enumerate() {
         let name = b.topic.strip_suffix(".define").unwrap_or("");
-        let errs = log.iter().filter(|f| f.topic == format!("{}.error", name) && meta_str(f, "command_id") == Some(&b.id.to_string())).count();
-        if errs != 1 {
+        let errs = log.iter().filter(|f| f.topic == format!("{}.error", name) && meta_str(f, "command_id") == Some(&b.id.to_string())).count() as u64;
+        // reported once when it arrives; a later start of the server replays the definitions and may report it again
+        let extra = later_starts.get(bi).copied().unwrap_or(0);
+        if errs < 1 || errs > 1 + extra {
             res.find(&["C19"], format!("{}invalid-definition-not-reported-exactly-once", sig_prefix), json!({"definition": b, "error_frames": errs}));
         }
     }
